@@ -374,7 +374,7 @@ func c10Worker(w *W) {
 		l, t := collect()
 		verify(l, t)
 	}
-	ranges := []string{"", "INFO", "WARN~FATAL", "TRACE~DEBUG", "DEBUG", "ERROR~ERROR", "NONE~TRACE", "PANIC", "DEBUG~PANIC", "NOTICE~L998"}
+	ranges := []string{"", "INFO", "WARN~FATAL", "TRACE~DEBUG", "DEBUG", "ERROR~ERROR", "NONE~TRACE", "PANIC", "DEBUG~PANIC", "NOTICE~L998", "ERROR~INFO", "FATAL~TRACE"}
 	k := 0
 	rdir := filepath.Join(w.Spec.Dir, w.Spec.Name+".roll")
 	defer os.RemoveAll(rdir)
